@@ -4,6 +4,7 @@ Model construction from parse trees and the model API.
 
 from __future__ import annotations
 
+import bisect
 import traceback
 from collections import OrderedDict
 from collections.abc import Callable
@@ -1097,6 +1098,9 @@ class ReferenceResolver:
         self.model = model
         self.pos_crossref_list = pos_crossref_list  # tool support
         self.delayed_crossrefs = []
+        # Positions of the references already resolved into each list
+        # attribute, used to keep the lists in textual order.
+        self._list_ref_positions = {}
 
     def has_unresolved_crossrefs(self, obj, attr_name=None):
         """
@@ -1203,7 +1207,14 @@ class ReferenceResolver:
                 else:
                     resolved_crossref_count += 1
                     if attr.mult in [MULT_ONEORMORE, MULT_ZEROORMORE]:
-                        attr_value.append(resolved)
+                        # References may resolve in any order (Postponed).
+                        # Keep the list in the order of the reference texts.
+                        positions = self._list_ref_positions.setdefault(
+                            (id(obj), attr.name), []
+                        )
+                        idx = bisect.bisect_right(positions, crossref.position)
+                        positions.insert(idx, crossref.position)
+                        attr_value.insert(idx, resolved)
                     else:
                         setattr(obj, attr.name, resolved)
             else:  # crossref not in model
